@@ -866,6 +866,30 @@ def btreeset_range_loc(e, args, fr, m):
     return IterV(out, 0, 'val')
 
 
+@contract(r'^BTreeSet::<(i8|i16|i32|i64|u8|u16|u32|u64|usize|isize)>::range::<\1, Range(Inclusive|From|To|)<\1>>$')
+def btreeset_range_int(e, args, fr, m):
+    """the elements of an integer set inside the range, in the set's (ascending) order: one decision per element"""
+    s = e.load(args[0])
+    rng = e.force(args[1])
+    kind = m.group(2)
+    lo = rng.fields[0] if kind in ('', 'Inclusive', 'From') else None
+    hi = None
+    if kind == 'To':
+        hi = rng.fields[0]
+    elif kind in ('', 'Inclusive'):
+        hi = rng.fields[1]
+    out = []
+    for x in s.items:
+        conds = []
+        if lo is not None:
+            conds.append(e.binop('Le', lo, x))
+        if hi is not None:
+            conds.append(e.binop('Le' if kind == 'Inclusive' else 'Lt', x, hi))
+        if e.branch(conj(e, conds)):
+            out.append(x)
+    return IterV(out, 0, 'val')
+
+
 @contract(r'^<(?:btree_set::)?Range<.*> as IntoIterator>::into_iter$')
 def btree_range_into_iter(e, args, fr, m):
     return args[0]
@@ -1599,9 +1623,42 @@ def regex_new(e, args, fr, m):
     p = e.load(args[0])
     if not p.concrete:
         raise Unsupported('symbolic regex pattern')
-    if p.v not in REGEX_PATTERNS:
+    if p.v not in REGEX_PATTERNS and _simple_regex(p.v) is None:
         raise Unsupported('regex pattern %r has no contract' % p.v)
     return ok(Adt('Regex', None, (p,)))
+
+
+def _simple_regex(pat):
+    """patterns that are a fixed-length sequence of one-character atoms (literal, escaped literal, `.`, `[...]` / `[^...]` of literals),
+    optionally anchored with ^ / $, no quantifiers, groups or alternation -> (anchored start, anchored end, [atom]) with
+    atom = ('lit', c) | ('any',) | ('set', negated, chars); None for every other pattern"""
+    i, atoms, a0, a1 = 0, [], False, False
+    if pat.startswith('^'):
+        a0, i = True, 1
+    while i < len(pat):
+        c = pat[i]
+        if c == '$' and i == len(pat) - 1:
+            a1 = True; i += 1; continue
+        if c in '*+?{}()|^$':
+            return None
+        if c == '\\':
+            if i + 1 >= len(pat) or pat[i + 1].isalnum():
+                return None                      # classes such as \d, \w, \b: not a literal
+            atoms.append(('lit', pat[i + 1])); i += 2; continue
+        if c == '.':
+            atoms.append(('any',)); i += 1; continue
+        if c == '[':
+            j = pat.find(']', i + 2)
+            if j < 0:
+                return None
+            body = pat[i + 1:j]
+            neg = body.startswith('^')
+            body = body[1:] if neg else body
+            if '\\' in body or '-' in body[1:-1] or '[' in body:
+                return None
+            atoms.append(('set', neg, body)); i = j + 1; continue
+        atoms.append(('lit', c)); i += 1
+    return (a0, a1, atoms) if atoms else None
 
 
 def _match(start, end, text):
@@ -1614,6 +1671,25 @@ def regex_is_match(e, args, fr, m):
     rx = e.load(args[0])
     pat = rx.fields[0].v
     text = e.load(args[1])
+    if isinstance(text, NameStr) and m.group(1) == 'is_match' and _simple_regex(pat) is not None:
+        # a symbolic file name against a fixed-length pattern: one condition per position (`.` matches every letter of the alphabet, none
+        # of which is a line feed)
+        a0, a1, atoms = _simple_regex(pat)
+        n, k = len(text.chars), len(atoms)
+        alts = []
+        for pos in range(0, n - k + 1):
+            if (a0 and pos != 0) or (a1 and pos + k != n):
+                continue
+            cs = []
+            for j, atom in enumerate(atoms):
+                c = text.chars[pos + j]
+                if atom[0] == 'lit':
+                    cs.append(NameStr._is(c, atom[1]))
+                elif atom[0] == 'set':
+                    inside = disj([NameStr._is(c, ch) for ch in atom[2]])
+                    cs.append(inside if not atom[1] else (True if inside is False else (False if inside is True else z3.Not(inside))))
+            alts.append(conj(e, cs))
+        return e.branch(disj(alts))
     if isinstance(text, SegStr):
         skel, owner = text.skeleton()
         mm = _re.search(pat, skel)
